@@ -2,7 +2,7 @@
     harness/src/cfgstate.rs).  [run_case] is shared by C05, C06 and C07. *)
 From stdpp Require Import gmap strings.
 From Coq Require Import NArith ZArith String.
-From SV Require Import Common.Tok CfgState.Model CfgState.Gen CfgState.GenSteps.
+From SV Require Import Common.Tok CfgState.Model CfgState.Gen CfgState.GenSteps C05.Framing.
 Open Scope string_scope.
 Open Scope list_scope.
 Open Scope N_scope.
@@ -129,6 +129,28 @@ Definition dump (s : state) : list tok :=
               [tn (N.of_nat (List.length (fst e)))] ++ map tn (fst e)
               ++ [tn (N.of_nat (List.length (snd e)))] ++ snd e) (isort entry_le (entries s)).
 
+(** serde_json::from_slice::<u64> on one record of the framing test: optional
+    whitespace, a JSON number without sign / fraction / leading zero, optional whitespace *)
+Definition is_ws (b : N) : bool := (b =? 32) || (b =? 10) || (b =? 9) || (b =? 13).
+Definition is_digit (b : N) : bool := (48 <=? b) && (b <=? 57).
+Fixpoint skip_ws (l : list N) : list N :=
+  match l with b :: r => if is_ws b then skip_ws r else l | [] => [] end.
+Fixpoint take_digits (l : list N) (acc : N) (n : nat) : N * nat * list N :=
+  match l with
+  | b :: r => if is_digit b then take_digits r (acc * 10 + (b - 48)) (S n) else (acc, n, l)
+  | [] => (acc, n, [])
+  end.
+Definition decode_num (chunk : list N) : option N :=
+  let l := skip_ws chunk in
+  let '(v, n, rest) := take_digits l 0 0%nat in
+  match n with
+  | O => None
+  | S m =>
+    let leading_zero := match l with b :: _ => (b =? 48) && negb (Nat.eqb m 0) | [] => false end in
+    if leading_zero then None
+    else match skip_ws rest with [] => Some v | _ => None end
+  end.
+
 Definition nb (b : bool) : tok := tn (if b then 1 else 0).
 
 Definition step (st : rstate) (op : list tok) : rstate * list tok :=
@@ -148,6 +170,14 @@ Definition step (st : rstate) (op : list tok) : rstate * list tok :=
     else if name =s "save" then (RS (cur st) (<[g 0%nat := cur st]> (slots st)) (o_fp st) (o_names st) (o_hc st), [])
     else if name =s "load" then
       (RS (default (cur st) (slots st !! g 0%nat)) (slots st) (o_fp st) (o_names st) (o_hc st), [])
+    else if name =s "parse_bytes" then
+      match args with
+      | [TB bs] =>
+        let '(rs, tl) := parse N decode_num bs in
+        (st, [tn (N.of_nat (List.length rs))] ++ map tn rs ++ [tn (N.of_nat (List.length tl))])
+      | _ => (st, [TS "badop"])
+      end
+    else if name =s "framing" then (st, [])
     else if name =s "replay" then
       let '(s', n) := replay (fp_of st) (names_of st) (hc_of st) steps_of
                              (generate_requests (cur st)) empty_state in
